@@ -345,7 +345,7 @@ theorem http_success_is_clean (abort : Bool) (k errLen : Nat) :
 /-! ### `GzipLaw` is inhabited
 
 A toy codec: the length in unary (`1` bytes), a `0`, then the data. An abandoned writer has
-emitted nothing. The relay theorems above are therefore not vacuous. -/
+emitted the length prefix only (a non-empty partial stream for every non-empty input). The relay theorems above are therefore not vacuous. -/
 
 def toyEnc (x : List UInt8) : List UInt8 := x.map (fun _ => (1 : UInt8)) ++ [0] ++ x
 
@@ -391,6 +391,17 @@ theorem toyDecAux_cut (l x : List UInt8) (n p : Nat)
       simp only [List.map_cons, List.cons_append, List.take_succ_cons, toyDecAux, if_true]
       exact ih (n + 1) p (by simp only [List.length_cons] at hp; omega) (by simp only [List.length_cons] at hx; omega)
 
+theorem toyDecAux_ones (l : List UInt8) (n p : Nat) :
+    toyDecAux n ((l.map (fun _ => (1 : UInt8))).take p) = none := by
+  induction l generalizing n p with
+  | nil => simp [toyDecAux]
+  | cons a l ih =>
+    cases p with
+    | zero => simp [toyDecAux]
+    | succ p =>
+      simp only [List.map_cons, List.take_succ_cons, toyDecAux, if_true]
+      exact ih (n + 1) p
+
 def toyGzip : GzipLaw where
   enc := toyEnc
   dec := toyDec
@@ -405,10 +416,11 @@ def toyGzip : GzipLaw where
     apply toyDecAux_cut x x 0 p
     · simp only [List.length_append, List.length_map, List.length_cons, List.length_nil] at hp; omega
     · omega
-  open_ := fun _ => []
+  -- an abandoned writer has emitted the length prefix and nothing else: no terminator, no data
+  open_ := fun x => x.map (fun _ => (1 : UInt8))
   open_cut := by
     intro x p
-    simp [toyDec, toyDecAux]
+    exact toyDecAux_ones x 0 p
 
 /-- the relay theorems applied to the toy codec -/
 example : serving_failure_full toyGzip false := serving_failure_is_error toyGzip
@@ -420,7 +432,11 @@ example (compress : Bool) (frame payload : List UInt8) (cut : Nat)
 
 example : clientBackup toyGzip true false [9] false [7, 8] 6 = .ok [7, 8] ∧
     clientBackup toyGzip true false [9] false [7, 8] 5 = .error ∧
-    relayed toyGzip false true false [9] [7, 8] false 6 = .error := by decide
+    relayed toyGzip false true false [9] [7, 8] false 6 = .error ∧
+    toyGzip.open_ [7, 8] = [1, 1] ∧
+    -- the partial stream of a failed backup arrives in full, or cut anywhere: an error
+    relayed toyGzip false true false [9] [7, 8] false 3 = .error ∧
+    relayed toyGzip false true true [9] [7, 8] false 2 = .error := by decide
 
 example : (runDb {} [.write, .write, .snapBegin, .checkpoint 0, .snapEnd, .write, .backupBegin,
     .copyChunk, .write, .snapBegin, .checkpoint 5, .copyChunk, .backupEnd, .snapBegin, .checkpoint 5, .snapEnd]).done = [(1, [1, 1])] ∧
